@@ -421,6 +421,19 @@ fn finish_build(eff: String, req: IppRequestResponse, kind: String, payload: Vec
     if badkey {
         oracle = Some("map key differs from stored attribute name".into());
     }
+    // C13 through the constructors: the printer-uri written into the request carries no user-info or query
+    if let Some(g) = req.attributes().groups_of(DelimiterTag::OperationAttributes).next() {
+        if let Some(IppValue::Uri(u)) = g.attributes().get(IppAttribute::PRINTER_URI).map(|a| a.value()) {
+            for m in MARKERS {
+                if u.contains(m) && oracle.is_none() {
+                    oracle = Some(format!("printer-uri `{}` written by the {} constructor contains `{}` (user-info or query leaked)", u, kind, m));
+                }
+            }
+            if !(u.starts_with("ipp://") || u.starts_with("ipps://")) && oracle.is_none() {
+                oracle = Some(format!("printer-uri `{}` does not have an IPP scheme", u));
+            }
+        }
+    }
     let mut got = vec![];
     use std::io::Read;
     let mut p = req.into_payload();
@@ -452,8 +465,9 @@ pub fn order_oracle(bytes: &[u8], attrs: &IppAttributes) -> Option<String> {
         }
         i = vo + 2 + vl;
     }
-    let op = attrs.groups_of(DelimiterTag::OperationAttributes).next()?;
-    let has = |n: &str| op.attributes().contains_key(n);
+    attrs.groups_of(DelimiterTag::OperationAttributes).next()?;
+    // an operation attribute counts as present when any operation-attributes group of the message holds it
+    let has = |n: &str| attrs.groups_of(DelimiterTag::OperationAttributes).any(|g| g.attributes().contains_key(n));
     let mut expect: Vec<&str> = vec![];
     if has("attributes-charset") {
         expect.push("attributes-charset");
